@@ -1,0 +1,13 @@
+// +build verif
+
+package concurrencylimiter
+
+// VerifYield, when set by a verification harness, is called at named points between
+// atomic steps so that the harness can schedule other goroutines there.
+var VerifYield func(site string)
+
+func verifYield(site string) {
+	if f := VerifYield; f != nil {
+		f(site)
+	}
+}
